@@ -288,6 +288,23 @@ func checkPipelines(c Case) error {
 	if d := compareLogs(rr.Calls, ps[0].rr.Calls[marks[0]:]); d != "" {
 		return harness.Violatef("c07/direct-vs-bytes", "rendering via Encoder+Decode differs from direct rendering: %s", d)
 	}
+	// ... and without any option: the palette given to Reset travels in the bytes as the
+	// suggested palette (every entry of the generated palettes is a valid premultiplied colour)
+	allValid := true
+	for _, e := range c.Palette {
+		allValid = allValid && spec.Premultiplied(e)
+	}
+	if allValid {
+		rr2 := &rast.Recorder{}
+		var z2 render.Renderer
+		z2.SetRasterizer(rr2, rect)
+		if err := decode.Decode(&z2, append([]byte{}, b2...)); err != nil {
+			return harness.Violatef("c07/decode-error", "Decode: %v", err)
+		}
+		if d := compareLogs(rr2.Calls, ps[0].rr.Calls[marks[0]:]); d != "" {
+			return harness.Violatef("c07/direct-vs-bytes", "rendering via Encoder+Decode (palette from the bytes) differs from direct rendering: %s", d)
+		}
+	}
 	return nil
 }
 
